@@ -28,6 +28,33 @@ fn show_pstr(p: samlang_heap::PStr) -> String {
   }
 }
 
+/// Every heap string id the server state holds: parsed modules, checked modules, global
+/// signatures (generated exhaustive walker) and stored errors (their Debug form).
+fn reachable_ids(state: &ServerState) -> Vec<u32> {
+  use samlang_services::verif_hooks_c11 as hk;
+  use samverif_harness::walk::Walk;
+  let mut out = Vec::new();
+  for m in hk::parsed_modules(state).values() {
+    m.walk(&mut out);
+  }
+  for m in hk::checked_modules(state).values() {
+    m.walk(&mut out);
+  }
+  hk::global_cx(state).walk(&mut out);
+  let mut ids: Vec<u32> =
+    out.into_iter().filter_map(|p| samlang_heap::verif_hooks::pstr_repr(p).err()).collect();
+  let dbg = format!("{:?}", hk::errors(state));
+  for part in dbg.split("id=").skip(1) {
+    let digits: String = part.chars().take_while(|c| c.is_ascii_digit()).collect();
+    if let Ok(n) = digits.parse::<u32>() {
+      ids.push(n);
+    }
+  }
+  ids.sort();
+  ids.dedup();
+  ids
+}
+
 fn tail(state: &ServerState) -> String {
   let st = state.heap.stat();
   let nums: Vec<&str> = st.split(|c: char| !c.is_ascii_digit()).filter(|x| !x.is_empty()).collect();
@@ -35,9 +62,10 @@ fn tail(state: &ServerState) -> String {
     state.string_sources.keys().map(|m| samlang_heap::verif_hooks::module_reference_index(*m)).collect();
   mods.sort();
   format!(
-    "stat={} mods={}",
+    "stat={} mods={} reach={}",
     nums.join(","),
-    mods.iter().map(|m| m.to_string()).collect::<Vec<_>>().join(",")
+    mods.iter().map(|m| m.to_string()).collect::<Vec<_>>().join(","),
+    reachable_ids(state).iter().map(|m| m.to_string()).collect::<Vec<_>>().join(",")
   )
 }
 
